@@ -15,7 +15,19 @@ if REPO not in sys.path:
     sys.path.insert(0, REPO)
 
 import logging  # noqa: E402
-logging.disable(logging.CRITICAL)
+import warnings  # noqa: E402
+# VERIF_ENV_VARIANT selects how the process is set up around the library (the check repeats a sample of
+# its work in each): 'log' = every logger enabled down to level 1 (records go to a null handler),
+# 'werror' = warnings issued from penman's modules are errors; default = logging disabled
+_VARIANT = os.environ.get('VERIF_ENV_VARIANT', '')
+if _VARIANT == 'log':
+    logging.getLogger().addHandler(logging.NullHandler())
+    logging.getLogger().setLevel(1)
+    logging.getLogger('penman').setLevel(1)
+else:
+    logging.disable(logging.CRITICAL)
+if _VARIANT == 'werror':
+    warnings.filterwarnings('error', module=r'penman(\..*)?$')
 
 import penman  # noqa: E402
 from penman import layout, surface, transform, constant  # noqa: E402
